@@ -75,7 +75,8 @@ func permutations(n int, limit int, r *Rng) [][]int {
 }
 
 type c08Ref struct {
-	colls []map[string][]string // one per sequential permutation
+	colls  []map[string][]string // one per sequential permutation
+	broken string
 }
 
 func sequentialSpec(sp *RunSpec, perm []int) *RunSpec {
@@ -563,6 +564,7 @@ func init() {
 		ThoroughBudgetS: 600,
 		ExpectProbes:    []string{"lock-contention", "nested-delivery"},
 		Drive:           driveC08,
+		Oracle:          c08Oracle,
 		Assumptions: []string{
 			"SimDB.Lock gives per-id mutual exclusion (the proviso of the statement); values handed out by the database are private copies",
 			"sequential reference = the same library code run one request after another; C08 therefore decides interleaving-dependence, not functional correctness (C04/C05/C16)",
@@ -571,29 +573,73 @@ func init() {
 	})
 }
 
+var c08RefCache = map[string]*c08Ref{}
+
+func scenarioKey(sp *RunSpec) string {
+	return canonJSON(J{"w": mustJSON(sp.World), "r": mustJSON(sp.Requests), "m": sp.MapSeed})
+}
+
+// c08Reference runs the requests one after another in every order (<=3) or 6 sampled orders.
+func c08Reference(c *DriveCtx, sp *RunSpec) *c08Ref {
+	key := scenarioKey(sp)
+	if ref, ok := c08RefCache[key]; ok {
+		return ref
+	}
+	if len(c08RefCache) > 64 {
+		c08RefCache = map[string]*c08Ref{}
+	}
+	ref := &c08Ref{}
+	for _, p := range permutations(len(sp.Requests), 6, NewRng(uint64(len(key)))) {
+		sq := sequentialSpec(sp, p)
+		res := Execute(c.T, sq)
+		if res.Harness != "" || res.Verdict != "" {
+			ref.broken = res.Harness + res.Verdict
+			break
+		}
+		ref.colls = append(ref.colls, collectionsOf(res.After))
+	}
+	c08RefCache[key] = ref
+	return ref
+}
+
+func c08Oracle(c *DriveCtx, res *Result) {
+	if res.Verdict != "" {
+		return // deadlock is reported by Execute; budget is a harness matter
+	}
+	c08Duplicates(res)
+	if len(res.Spec.Faults) > 0 {
+		return // fault class: completion and duplicate handling only (a failed request may have done part of its effects)
+	}
+	seq := true
+	for i, r := range res.Spec.Requests {
+		if i > 0 && len(r.After) == 0 {
+			seq = false
+		}
+	}
+	if seq && len(res.Spec.Requests) > 1 {
+		return // this *is* a sequential execution
+	}
+	ref := c08Reference(c, res.Spec)
+	if ref.broken != "" {
+		return // the scenario does not even complete sequentially: reported separately by driveC08
+	}
+	c08Compare(res, ref)
+	c08Porcupine(c, res)
+}
+
 func driveC08(c *DriveCtx, r *Rng, k int) {
 	sp := genC08(r.Fork("scenario"), c.Tier, k)
 	n := len(sp.Requests)
-	ref := &c08Ref{}
-	for _, p := range permutations(n, 6, r.Fork("perms")) {
+	// sequential executions are explored too (completion, duplicates): identity order and reverse
+	for _, p := range [][]int{permutations(n, 2, r)[0], permutations(n, 6, r)[len(permutations(n, 6, r))-1]} {
 		sq := sequentialSpec(sp, p)
-		sq.Property = "C08"
-		res := c.Exec(sq)
-		if res.Harness != "" {
-			return
-		}
-		if res.Verdict == "deadlock" {
-			// a scenario that cannot even complete sequentially is reported by Execute (C08/deadlock) with its own replay
-			return
-		}
-		ref.colls = append(ref.colls, collectionsOf(res.After))
-		c08Duplicates(res)
-		c.flush(res)
+		c.Exec(sq)
 	}
 	nsched := 10
 	if c.Tier == "thorough" {
 		nsched = 40
 	}
+	var sites []string
 	for i := 0; i < nsched && !c.Expired(); i++ {
 		run := sp.Clone()
 		sr := r.Fork(fmt.Sprintf("sched/%d", i))
@@ -607,12 +653,24 @@ func driveC08(c *DriveCtx, r *Rng, k int) {
 		}
 		run.Gen += fmt.Sprintf(" sched=%s/%d", run.Sched.Strategy, i)
 		res := c.Exec(run)
-		if res.Harness != "" || res.Verdict != "" {
-			continue
+		if i == 0 {
+			sites = res.Sim.Sites
 		}
-		c08Compare(res, ref)
-		c08Duplicates(res)
-		c08Porcupine(c, res)
-		c.flush(res)
+	}
+	// fault class: one seam call fails somewhere, under a random schedule; everything must still complete
+	if len(sites) > 0 && k%3 == 0 {
+		nf := 6
+		if c.Tier == "thorough" {
+			nf = 16
+		}
+		for i := 0; i < nf && !c.Expired(); i++ {
+			fr := r.Fork(fmt.Sprintf("fault/%d", i))
+			run := sp.Clone()
+			site := Pick(fr, sites)
+			run.Faults = []FaultSpec{{Site: site, Kind: faultKindFor(site)}}
+			run.Sched = SchedSpec{Strategy: Pick(fr, []string{"random", "sticky", "fifo"}), Seed: fr.U64()}
+			run.Gen += fmt.Sprintf(" fault=%s sched=%s", site, run.Sched.Strategy)
+			c.Exec(run)
+		}
 	}
 }
